@@ -64,11 +64,17 @@ def b58encode_check(payload):
     return '1' * (len(raw) - len(raw.lstrip(b'\x00'))) + out
 
 
+_H160_CACHE = {}
+
+
 def address_to_h160(address):
-    p = b58decode_check(address)
-    if len(p) != 21:
-        raise ValueError('not a 21 byte address payload')
-    return p[1:]
+    h = _H160_CACHE.get(address)
+    if h is None:
+        p = b58decode_check(address)
+        if len(p) != 21:
+            raise ValueError('not a 21 byte address payload')
+        h = _H160_CACHE[address] = p[1:]
+    return h
 
 
 def compact_size(n):
@@ -247,7 +253,18 @@ ANY = ('push', None)
 P2PKH_PATTERN = [OP_DUP, OP_HASH160, ('push', 20), OP_EQUALVERIFY, OP_CHECKSIG]
 
 
+_CLASSIFY_CACHE = {}
+
+
 def classify(script):
+    """Memoised front of _classify (pure function of the script bytes)."""
+    r = _CLASSIFY_CACHE.get(script)
+    if r is None:
+        r = _CLASSIFY_CACHE[script] = _classify(script)
+    return r
+
+
+def _classify(script):
     """-> (role, h160).  role in {'other', 'claim', 'support'} when the output pays a public-key-hash
     address (h160 = that hash; 'claim' covers claim_name and update_claim), else (None, None): script
     hashes, witness programs, data carriers, non-standard and unparseable scripts pay no wallet address."""
@@ -469,17 +486,13 @@ def discoverable(chain, hd_addresses, gap):
         n = need
 
 
-def wallet_view(chain, hd_chains, gaps):
-    """hd_chains: {'receiving': [addresses in derivation order], 'change': [...]}, gaps likewise.
-    -> dict(known, histories, utxos, spendable, claims, supports, total)."""
-    known = {}
-    for name, addrs in hd_chains.items():
-        known[name] = addrs[:discoverable(chain, addrs, gaps[name])]
-    all_known = [a for name in sorted(known) for a in known[name]]
-    utxos = chain.unspent_paying(all_known)
+def wallet_view(chain, addresses):
+    """What a wallet owning exactly `addresses` must show once it has caught up with `chain`:
+    dict(histories, utxos, spendable, available, claims, supports, my_supports, total)."""
+    addresses = list(addresses)
+    utxos = chain.unspent_paying(addresses)
     view = {
-        'known': known,
-        'histories': {a: chain.history(a) for a in all_known},
+        'histories': {a: chain.history(a) for a in addresses},
         'utxos': utxos,
         'spendable': {k: v[0] for k, v in utxos.items() if v[1] == 'other'},
         'claims': sum(v[0] for v in utxos.values() if v[1] == 'claim'),
@@ -487,9 +500,9 @@ def wallet_view(chain, hd_chains, gaps):
     }
     view['available'] = sum(view['spendable'].values())
     view['total'] = view['available'] + view['claims'] + view['supports']
-    # supports whose transaction's first input spends an output paying a known address ("my supports");
-    # every other unspent support paying us is a tip
-    by_hash = {address_to_h160(a) for a in all_known}
+    # supports whose transaction's first input spends an output paying one of the addresses ("my
+    # supports"); every other unspent support paying us is a tip
+    by_hash = {address_to_h160(a) for a in addresses}
     mine = 0
     for (txid, n), (amount, role, _) in utxos.items():
         if role != 'support':
@@ -557,13 +570,13 @@ def selftest():
     c.add_block(confirm=[txid_of(t1)])
     assert c.history(a) == [(txid_of(t1), 5), (txid_of(t2), 0)]
     c.add_mempool(t3)
-    c.add_block(confirm=[txid_of(t3), ]) if False else None
     assert c.history(a) == [(txid_of(t1), 5), (txid_of(t2), 0), (txid_of(t3), -1)]
     assert c.unspent_paying([a]) == {}
     c.add_block(confirm=[txid_of(t2), txid_of(t3)])
     assert c.history(a) == [(txid_of(t1), 5), (txid_of(t2), 6), (txid_of(t3), 6)]
     s = Server(c)
     assert s.subscribe([a]) == [c.status(a)] and s.pending_notifications() == []
+    assert wallet_view(c, [a])['total'] == 0 and len(wallet_view(c, [a])['histories'][a]) == 3
     assert discoverable(c, [a] + [b58encode_check(b'\x55' + bytes([i]) * 20) for i in range(1, 8)], 3) == 4
     return True
 
